@@ -537,8 +537,12 @@ class SVGPath(SVGShape, SVGCommandSeq):
         if not inplace:
             target = copy.deepcopy(self)
 
+        # judge each subpath with this path's own paint: an open or zero-area
+        # subpath still paints when the path is stroked
         target.d = " ".join(
-            subpath for subpath in self.subpaths() if SVGPath(d=subpath).might_paint()
+            subpath
+            for subpath in self.subpaths()
+            if dataclasses.replace(self, d=subpath).might_paint()
         )
 
         return target
